@@ -83,7 +83,7 @@ func (x *Exec) resolveCall(fr *Frame, in *ssa.Function, c *ssa.CallCommon) callR
 		return callRes{kind: ckModel, model: m, callee: callee}
 	}
 	// inline module functions and small external functions with bodies
-	if len(callee.Blocks) > 0 && countInstrs(callee) <= inlineMaxInstrs && (fr == nil || fr.depth < inlineMaxDepth) && !x.onStack(fr, callee) {
+	if len(callee.Blocks) > 0 && countInstrs(callee) <= inlineMaxInstrs && (fr == nil || fr.depth < x.inlineLimit()) && !x.onStack(fr, callee) {
 		if fr != nil && fr.topFC() != nil {
 			for _, o := range fr.topFC().Opaque {
 				if o == funcKey(callee) {
@@ -723,4 +723,11 @@ func (x *Exec) resolveTypeKey(name string) string {
 		return "bytes.Buffer"
 	}
 	return name
+}
+
+func (x *Exec) inlineLimit() int {
+	if x.maxInline > 0 {
+		return x.maxInline
+	}
+	return inlineMaxDepth
 }
